@@ -37,6 +37,11 @@ CHECKS = {
    text="TLC checks CountExact (failure counter = failures remembered from the last fail_duration), NeverNegative, LimitRespected, ConnsExact and GiveUpOnlyLate on the timed model of Handle/dialPeers/countFailure/tryAgain over all histories of dial failures, outages, recoveries, connection opens/ends (2 peers, 2-3 connections, integer ticks). The real handler runs in scaled real time for a TLC-enumerated grid: failure-window scripts (counters and rotation membership sampled through an accessor, failures observed through hooks), retry runs against refusing peers (attempt spacing, give-up time, last error), connection-limit runs (max_connections and unhealthy_connection_count with loopback upstreams recording who got which connection) and active health checks (peer refusing / accepting); TLC judges the timed traces against clauses W1-W2/R1-R4/L1-L2/A1 of L4HealthAbs.",
    note="scaled real time with 45 ms tolerance at window edges; disturbed runs repeated then inconclusive; one peer per upstream in the timed runs",
    technique="timed TLA+ model of health accounting and retries checked with TLC; timed trace validation of the real proxy handler"),
+
+ "C16": dict(level="model_checking", design="5 C16, 4.7",
+   text="The reference May(cfg, script) of L4Socks5 (command rule set incl. defaults / case / placeholders, credential filtering with fail-closed empty names, RFC 1928 method selection, RFC 1929 authentication) is enumerated exhaustively by TLC over all configuration x client-script pairs of the bounded grammar (17 640 in the quick tier); every pair is played against the real Socks5Handler (provisioned, Handle on a pipe, loopback target recording outbound connections) and TLC judges each observation: success reply or outbound effect only if May.",
+   note="scripted client bytes; outbound effect observed as a TCP accept on the harness target or a success reply to ASSOCIATE; only the 'only' direction is judged",
+   technique="TLA+ reference of SOCKS5 negotiation/authorisation; exhaustive TLC enumeration replayed on the real handler; trace validation"),
 }
 NA = {
 }
